@@ -24,8 +24,12 @@ Definition model_rot (T K : Z) (l : list Q) : Z := align_quat_index (argmax l) T
 
 (** loader-level label *)
 Definition u8 (x : Z) : Z := x mod 256.
-Definition loader_label (T K iopt : Z) : Z := u8 (post_label iopt (loader_remainder K T)).
-Definition group_label (T K iopt : Z) : Z := u8 (post_label iopt (group_remainder (has_rotation K) T)).
+(** labels are collected as uint32, reduced modulo the number of templates, then stored as uint8 (generated fact) *)
+Definition loader_label (T K iopt : Z) : Z :=
+  if label_cast_after_modulo then u8 (post_label iopt (loader_remainder K T)) else post_label (u8 iopt) (loader_remainder K T).
+Definition group_label (T K iopt : Z) : Z :=
+  if label_cast_after_modulo then u8 (post_label iopt (group_remainder (has_rotation K) T))
+  else post_label (u8 iopt) (group_remainder (has_rotation K) T).
 
 Definition check_align (T K : Z) (l : list Q) (label rot shiftcode : Z) (score : Q) : bool :=
   let i := argmax l in
